@@ -24,6 +24,8 @@ RULE = ("file shapes H in 0..4 pragma lines x column line absent/last/followed b
         "valid/defect/adversarial file stream shared with C16; each file read in Silent and in Strict mode; "
         "non-trivial: at least one error with a line number was reported; distinct by hash of (lines, override)")
 ASSUMPTIONS = [
+    "hypothesis of the theorems: every scheme (registry entry or override) has distinct column names - schemes keep "
+    "their columns in a dict; checked on the imported registry each run (generated obligation)",
     "typed column classes are represented in the extracted run by an oracle table from the real classes (see C16)",
     "the scheme registry is read from all_schemes() of the imported library",
     "an error 'refers to a line' when its type is one of the pragma-line categories, a column-name error, "
@@ -88,6 +90,10 @@ def _typed_grid():
                 out.append({"lines": hl + ["\t".join(names)] + d2, "override": None,
                             "shape": dict(shape, defect="data@%d" % (j + 1))})
     return out
+
+
+def EXTRA_OBLIGATIONS(ctx):
+    return [R.schemes_wf_obligation()]
 
 
 def corpus():
